@@ -11,7 +11,7 @@ TABLES = ["Kits", "Enzymes"]
 LAKE_TARGETS = ["Moclo.Props.C05", "Moclo.Tables.Kits", "Moclo.Tables.Enzymes"]
 THEOREMS = ["Moclo.C05." + t for t in ["narrowed_accepts_iff", "sig_narrows", "generic_eq", "part_eq", "part_accepts_iff", "kit_structures_derived", "characterize_spec"]]
 # reductions under which a failing case stays a case of this property (see shrink.py)
-SHRINK = {"strings": True}
+SHRINK = {"strings": True, "freeze_if": ["real"]}
 RULE = ("every signature-derived class of the kits and user-defined signatures (incl. degenerate IUPAC ones) over "
         "every enzyme geometry; records with a unique generic match: members of the type, members of sibling types, "
         "random overhangs, near-misses differing in one overhang letter, at a random rotation; part verdict compared "
@@ -70,6 +70,13 @@ def check_case(ctx, case):
     ctx.note("generic:" + g[0])
     ctx.note("part-accepts" if p[0] == "valid" else "part-rejects")
     ctx.case(case, nontrivial=g[0] == "valid", key=[case["cls"], wd])
+    if case.get("real"):
+        # a plasmid built from the enzyme's geometry alone (site with ambiguity codes): the generic class must take it
+        if g[0] != "valid":
+            ctx.fail("the generic class over {} rejects a plasmid built with two of its sites and overhangs {}: {!r}".format(
+                P.cutter, case["real"], wd), case)
+        ctx.note("degenerate-site-cutter")
+        return      # the model's screen spells sites out letter by letter: oracle only for sites with ambiguity codes
     ctx.op(("EVAL", P, wd, []), case)
     ctx.op(("EVAL", G, wd, []), case)
 
@@ -204,6 +211,23 @@ def run(ctx):
             continue
         ctx.guard(check_case, {"cls": cname, "word": gen.rot(wd, rng.randrange(len(wd))),
                                "sibling": sibling_of(rng, cls)})
+    # user-defined parts over 5' cutters whose site has ambiguity codes (LpnPI CCDG, FaqI GGGAC is plain, BccI …):
+    # the part and the signature-free class must agree on plasmids built from the enzyme's geometry alone
+    degen5 = [e for e in boot.degenerate_site_enzymes() if e.is_5overhang()]
+    for _ in range(ctx.budget(60, 2000)):
+        if not degen5:
+            break
+        enz = rng.choice(degen5)
+        k = abs(enz.ovhg)
+        kind = rng.choice("MV")
+        u, d = gen.rnd(rng, k), gen.rnd(rng, k)
+        wd = gen.real_part_word(rng, enz, kind, u, d)
+        if wd is None:
+            continue
+        sig = rng.choice([(u, d), ("N" * k, "N" * k), (u, gen.rnd(rng, k)), (gen.rnd(rng, k), d)])
+        cname = "part:{}:{}:{}:{}".format(kind, str(enz), sig[0], sig[1])
+        ctx.guard(check_case, {"cls": cname, "word": gen.rot(wd, rng.randrange(len(wd))), "real": [u, d],
+                               "sibling": sibling_of(rng, asm.cls_by_name(cname))})
     # characterize over the kit part families
     bases = [c for c in (getattr(m, n, None) for m in boot.kit_modules().values() for n in dir(m))
              if isinstance(c, type) and issubclass(c, boot.AbstractPart) and c.__subclasses__()
